@@ -11,7 +11,7 @@ CONSTANTS
   Budget = 1
   LateKinds = {"write", "promote", "release"}
   EarlyStop = FALSE
-  MaxDepth = 14
+  MaxDepth = 12
 VIEW View
 SYMMETRY Sym
 CONSTRAINT Bounded
